@@ -44,6 +44,7 @@ class Effect:
         self.guards = []
         self.undec = None
         self.bodies = []
+        self.partial = set()    # fields written on some paths only
         self.opaque = []        # conditions the writes are control dependent on that are not dominating guards (disjunctive / match forms)
 
 
@@ -134,10 +135,15 @@ class ObjModel:
             if c.path and c.path in self.prog.pdb.bodies and self.is_mutator(c.path) and c.args and self._is_self(c.args[0], me):
                 events.append((rpo.get(c.bb, 0), 10 ** 6, 'call', c))
         events.sort(key=lambda ev: (ev[0], ev[1]))
+        e.partial = getattr(e, 'partial', set())
         for ev in events:
             bb = ev[3].bb
             if not all(cfg.dominates(bb, r) for r in cfg.returns):
-                e.undec = e.undec or 'a write to self is conditional (bb%d does not lie on every path to the return)' % bb
+                if ev[2] == 'field':
+                    # a single field written on some paths only: the field is reported as partially written, the rest of the effect stands
+                    e.partial.add(ev[3].target[2])
+                else:
+                    e.undec = e.undec or 'a write to self is conditional (bb%d does not lie on every path to the return)' % bb
         dom_conds = set()
         for r in cfg.returns:
             for c_, v_ in g.guards().get(r, []):
@@ -198,6 +204,7 @@ class ObjModel:
                     return map_term(t, f)
                 for fi, v in he.state.items():
                     state[fi] = tr(v)
+                e.partial |= set(getattr(he, 'partial', set()))
                 for gd in he.guards:
                     guards.append(gmap(gd, tr))
                 for oc in he.opaque:
